@@ -144,6 +144,7 @@ func (x *Exec) Failed() bool {
 
 // Sched is a cooperative scheduler for one execution.
 type Sched struct {
+	epoch        uint64
 	threads      []*thread
 	cur          *thread
 	prefix       []int
@@ -187,6 +188,8 @@ func lockName(m interface{}, prefix string) string {
 
 type lockVC struct{ w, r vclock }
 
+var runEpoch uint64
+
 // Run executes main (thread 0) under the scheduler, replaying prefix and then taking
 // alternative 0 at every later choice point.
 func Run(prefix []int, cfg Sched, main func()) *Exec {
@@ -194,6 +197,8 @@ func Run(prefix []int, cfg Sched, main func()) *Exec {
 		panic("vsync: nested Run")
 	}
 	s := &cfg
+	runEpoch++
+	s.epoch = runEpoch
 	s.prefix = prefix
 	s.x = &Exec{}
 	s.finished = make(chan struct{})
@@ -608,6 +613,7 @@ func RecordAccess(obj string, write bool, lo, hi int64, label string) {
 // Mutex replaces sync.Mutex.
 type Mutex struct {
 	real    sync.Mutex
+	epoch   uint64 // execution the scheduler state below belongs to (a package-level mutex outlives an execution)
 	locked  bool
 	user    int  // id+1 of the only thread that has used the mutex so far (0: none)
 	shared  bool // more than one thread has used it
@@ -620,6 +626,7 @@ type Mutex struct {
 // whose points were skipped, the assumption was wrong for this scenario: Exec.PrivateBroken is set and the
 // explorer repeats the scenario without the reduction.
 func (m *Mutex) private(s *Sched) bool {
+	m.fresh(s)
 	id := s.cur.id + 1
 	if m.user == 0 {
 		m.user = id
@@ -635,6 +642,13 @@ func (m *Mutex) private(s *Sched) bool {
 	}
 	m.skipped = true
 	return true
+}
+
+// fresh resets the scheduler-side state of a mutex that was last used in an earlier execution.
+func (m *Mutex) fresh(s *Sched) {
+	if m.epoch != s.epoch {
+		m.epoch, m.locked, m.user, m.shared, m.skipped = s.epoch, false, 0, false, false
+	}
 }
 
 func (m *Mutex) name() string { return lockName(m, "M") }
@@ -686,6 +700,7 @@ func (m *Mutex) Unlock() {
 	if s.aborting {
 		return
 	}
+	m.fresh(s)
 	if !m.locked {
 		panic("sync: unlock of unlocked mutex")
 	}
